@@ -153,6 +153,10 @@ func (r *Run) Sub(name, rule string, floor int) *Sub {
 	if s, ok := r.subs[name]; ok {
 		return s
 	}
+	if RaceEnabled {
+		// the race pass runs a reduced case list (N/8); its floor shrinks with it
+		floor = floor / 8
+	}
 	s := &Sub{r: r, Name: name, Rule: rule, digests: map[uint64]struct{}{}, counters: map[string]int64{},
 		floor: floor, maxSamples: 3, sets: map[string]map[string]struct{}{}}
 	r.subs[name] = s
